@@ -3,8 +3,8 @@
 // zz_generated.go and zz/<package>/zz_generated.go are produced by gen/main.go (run by prebuild.sh before every build) from a
 // go/parser scan of the exported API of the tree under test: one driver per member NameN of
 // every family of the property statement, at every arity at which it exists, instantiated
-// (D) with pairwise distinct named argument types and (I) with all-int position-tagged
-// arguments, and compared with the defining expression written out directly.
+// (D) with pairwise distinct named argument types, (I) with all-int position-tagged
+// arguments and, for the effectful families, (nil) with nilable types and a one-hot nil walk, and compared with the defining expression written out directly.
 package main
 
 import (
@@ -18,9 +18,9 @@ import (
 
 func main() {
 	mc.Main("C14", func(r *mc.Registry) {
-		r.Rule = "one scenario per package; leaf = (member NameN found by the scan of the current tree, instantiation D|I): " +
+		r.Rule = "one scenario per package; leaf = (member NameN found by the scan of the current tree, instantiation D|I|nil): " +
 			"the member is called on position-tagged arguments (argument/component i carries 100*i+k; D: pairwise distinct named types P1..P21 / L1..L21, " +
-			"I: one shared type) and every result and every tagged-callback log is compared with the defining expression written directly in the driver; " +
+			"I: one shared type; nil, effectful families only: nilable types, for each position i argument i nil and the others tagged, and once a nil callback result) and every result and every tagged-callback log is compared with the defining expression written directly in the driver; " +
 			"non-trivial = at least one comparison was made and the member has at least two position-distinguishable arguments; " +
 			"distinct = distinct (results, callback logs) observation"
 		r.Assumptions = []string{
@@ -52,14 +52,20 @@ func main() {
 				if m.I != nil {
 					modes = append(modes, "int")
 				}
+				if m.Nil != nil {
+					modes = append(modes, "nil")
+				}
 				mode := modes[x.Choose(len(modes), "instantiation")]
 				x.Logf("member %s (%s), %s instantiation", m.Name, m.Family, mode)
 				t := &sup.T{X: x, Member: m.Name, Mode: mode}
 				var pv any
-				if mode == "distinct" {
+				switch mode {
+				case "distinct":
 					pv = mc.Catch(func() { m.D(t) })
-				} else {
+				case "int":
 					pv = mc.Catch(func() { m.I(t) })
+				default:
+					pv = mc.Catch(func() { m.Nil(t) })
 				}
 				if pv != nil {
 					t.Fail("panicked: %v", pv)
@@ -98,7 +104,8 @@ func main() {
 		r.Extra["distinct_instantiation_typechecked_only"] = typecheckedOnlyD
 		r.Extra["bounds"] = map[string]any{
 			"arity": "every arity at which a member exists in the scanned tree (no bound other than the library's own limits)",
-			"instantiations": []string{"distinct (P1..P21 / L1..L21)", "int (one shared type, position tags 100*i+k)"},
+			"instantiations": []string{"distinct (P1..P21 / L1..L21)", "int (one shared type, position tags 100*i+k)",
+				"nil (effectful families option/try/future: argument types *int, []int, map[string]int, func() int, any by position, result *PR; one-hot walk: for each position i argument i is nil and the others are tagged non-nil values, plus one run in which the callback returns nil; the defining equation is written with fp.Some / fp.Success / future.Successful)"},
 		}
 	})
 }
